@@ -8,7 +8,10 @@ RULE = ("pass 1: honest streams sealed by the reference framer (x/crypto) and by
         "and 1-4 messages of 0..3 frames; pass 2: the receive loop of hc's session runs over altered streams: EVERY "
         "single-bit flip of streams of <= 3 frames of <= 40 bytes (bounded-exhaustive for the sampled streams), "
         "truncation at every byte offset, every deletion / duplication / adjacent swap of frames, replay of the "
-        "whole stream, reflection of the receiver's own frames, frames of another session, random garbage. "
+        "whole stream, reflection of the receiver's own frames, frames of another session, random garbage; pass 3: the same "
+        "kinds of alteration through hap.Connection.Read over a scripted socket (whole stream in one segment so that later frames "
+        "are already buffered, 37-byte segments, two segments; caller buffers of 4096 and 7 bytes; the caller keeps reading after "
+        "an error). "
         "non-trivial = the alteration touches the stream (not the identity) ")
 EXTRA_FILES = ("Proofs/FramingProofs.v", "Base/ChaChaPolyProofs.v")
 ASSUMPTIONS = ["no forgery event: the AEAD's open never accepts a (nonce, aad, ciphertext, tag) the key holder did not seal (INT-CTXT of ChaCha20-Poly1305); stated as the left disjunct of C05_prefix_or_forgery, not proved",
@@ -46,8 +49,12 @@ def run(res, a):
     quick = a.tier == "quick"
     if a.replay:
         rep = json.load(open(a.replay))
-        c = {"id": "replay", "line": rep["case"], "kind": "replay", "meta": rep.get("meta")}
-        core.run_correspondence(res, "frame", [c], me)
+        c = {"id": "replay", "line": rep["case"], "kind": "replay", "meta": rep.get("meta"), "stream": rep.get("stream", "")}
+        if rep.get("family") == "conn":
+            c["kind"] = "conn/replay"
+            core.run_correspondence(res, "conn", [c], ConnLevel)
+        else:
+            core.run_correspondence(res, "frame", [c], me)
         return
     # ---- pass 1: honest streams ----
     streams = []
@@ -140,6 +147,102 @@ def run(res, a):
         add("append", shared, rr, wire + rb(rng, rng.randrange(1, 30)), wire, ch, "garbage after the stream")
     core.run_correspondence(res, "frame", cases, me)
     res.extra["exhaustive_bitflips_for_small_streams"] = True
+    # ---- pass 3: the same alterations through hap.Connection.Read (the accessory's read path), where frames that
+    # follow the altered one may already be buffered; the caller keeps reading after an error ----
+    ccases = []
+    for i, (shared, role, msgs, small) in enumerate(streams):
+        if role != "cli":
+            continue
+        obs = go1.get("seal%d" % i, "")
+        if obs != mo1.get("seal%d" % i, "") or not obs:
+            continue
+        wire = b"".join(bytes.fromhex(t.split("=", 1)[1]) for t in obs.split(" ") if "=" in t)
+        fr = frames_of(wire)
+        ch = chunks_of(msgs)
+        alts = [("identity", wire)]
+        for k in range(len(fr)):
+            b = bytearray(fr[k])
+            bit = rng.randrange(len(b) * 8)
+            b[bit // 8] ^= 1 << (bit % 8)
+            alts.append(("bitflip frame %d" % k, b"".join(fr[:k]) + bytes(b) + b"".join(fr[k + 1:])))
+            alts.append(("drop frame %d" % k, b"".join(fr[:k] + fr[k + 1:])))
+            alts.append(("duplicate frame %d" % k, b"".join(fr[:k + 1] + fr[k:])))
+            forged = b"\x00\x00" + rb(rng, 16)
+            alts.append(("frame %d replaced by a forged empty frame" % k, b"".join(fr[:k]) + forged + b"".join(fr[k + 1:])))
+            if k + 1 < len(fr):
+                sw = list(fr)
+                sw[k], sw[k + 1] = sw[k + 1], sw[k]
+                alts.append(("swap frames %d,%d" % (k, k + 1), b"".join(sw)))
+        alts.append(("garbage after the stream", wire + rb(rng, 40)))
+        if len(alts) > 14 and quick:
+            alts = [alts[0]] + rng.sample(alts[1:], 13)
+        for note, stream in alts:
+            total = sum(len(x) for x in ch)
+            for segname, segs in (("one segment", [stream]), ("one segment per 37 bytes", [stream[o:o + 37] for o in range(0, len(stream), 37)]),
+                                  ("two segments", [stream[:len(stream) // 2], stream[len(stream) // 2:]])):
+                for bsz in (4096, 7):
+                    nreads = total // bsz + len(fr) + len(segs) + 12
+                    if nreads > 2500:
+                        continue
+                    evs = ",".join("D:" + x.hex() for x in segs if x) or "-"
+                    ccases.append({"id": "cc%d" % len(ccases), "kind": "conn/" + note.split(" frame")[0].split(" ")[0],
+                                   "line": "cr %s %s %s" % (shared.hex(), evs, ",".join([str(bsz)] * nreads)), "stream": stream.hex(),
+                                   "meta": {"honest": wire.hex(), "chunks": [c.hex() for c in ch], "note": note + ", " + segname + ", buffer %d" % bsz}})
+    core.run_correspondence(res, "conn", ccases, ConnLevel, corr_name="correspondence model<->code, family conn (hap.Connection.Read over altered streams)")
+
+
+class ConnLevel:
+    """the property on what hap.Connection.Read hands to its caller"""
+    shard_group = staticmethod(lambda line: line.split(" ")[2])
+
+    @staticmethod
+    def nontrivial(c):
+        return not c["kind"].startswith("conn/identity")
+
+    @staticmethod
+    def outcome_class(c, obs):
+        return c["kind"] + ("/error" if "e:err" in obs else "/clean")
+
+    @staticmethod
+    def oracle(c, obs):
+        if obs.startswith("panic") or obs.startswith("DRIVER-DIED") or obs == "NO-OUTPUT":
+            return "no panic; observed " + obs[:80]
+        meta = c["meta"]
+        stream, honest = bytes.fromhex(c["stream"]), bytes.fromhex(meta["honest"])
+        chunks = [bytes.fromhex(x) for x in meta["chunks"]]
+        j, pos = 0, 0
+        for ch in chunks:
+            n = 2 + len(ch) + 16
+            if len(stream) >= pos + n and stream[pos:pos + n] == honest[pos:pos + n]:
+                j += 1
+                pos += n
+            else:
+                break
+        intact = b"".join(chunks[:j])
+        got, failed = b"", False
+        for r in obs.split(" "):
+            if r.startswith("d:"):
+                if failed:
+                    return "data was delivered after a frame had failed to decrypt (%s)" % meta["note"]
+                got += bytes.fromhex(r[2:])
+            elif r in ("e:err", "z"):
+                failed = True
+        if got != intact[:len(got)]:
+            return "delivered bytes are not a prefix of the intact frames the peer sent (%s)" % meta["note"]
+        if len(got) > len(intact):
+            return "more was delivered than the intact frame prefix (%s)" % meta["note"]
+        if len(stream) != pos and got != intact:
+            return None if failed else "the stream deviates after frame %d: the intact frames must be delivered and an error reported (%s)" % (j, meta["note"])
+        if len(stream) != pos and not failed and len(stream) - pos >= 18:
+            # a complete altered frame is present: it must be reported
+            n = 2 + (stream[pos] | stream[pos + 1] << 8) + 16
+            if len(stream) - pos >= n:
+                return "an altered frame was not reported as an error (%s)" % meta["note"]
+        return None
+
+    @staticmethod
+    def classify(c, obs, why):
+        return None
 
 
 def nontrivial(c):
